@@ -24,6 +24,98 @@ def ws():
     return _ws
 
 
+# ---------------------------------------------------------------------------
+# Ambient conditions.  Many realistic defects only show under a condition that has nothing to do with the property at hand:
+# trace logging on, thread-safety locks off, a TLS transport, writes routed through a dispatcher object, a process that holds
+# many descriptors.  All of these are behaviour-neutral for the frame-level properties, so single-threaded batches of cases can
+# run under a randomly drawn combination of them (deterministic per seed); the combination in force is added to every witness.
+
+
+class _Ambient:
+    on = False
+    rng = None
+    dims = ()
+    last = None
+    counts = {}
+
+
+AMB = _Ambient()
+_AMB_NULL = None
+
+
+class ambient:
+    """with H.ambient(seed, res): ...   (never around scheduler explorations: trace logging changes the line-level points)"""
+
+    ALL = ("trace", "multithread", "tls", "dispatcher", "high_fd")
+
+    def __init__(self, seed, res=None, dims=ALL):
+        import random
+        self.seed, self.res, self.dims = seed, res, tuple(dims)
+        self.random = random
+
+    def __enter__(self):
+        AMB.on = True
+        AMB.rng = self.random.Random(("ambient", self.seed).__repr__())
+        AMB.dims = self.dims
+        AMB.counts = {}
+        AMB.last = None
+        return self
+
+    def __exit__(self, *a):
+        AMB.on = False
+        AMB.last = None
+        net.SimSocket.fd_base = 10
+        try:
+            ws().enableTrace(False)
+        except Exception:  # noqa
+            pass
+        if self.res is not None:
+            for k, v in AMB.counts.items():
+                self.res.count("ambient:" + k, v)
+        return False
+
+
+def _draw_ambient():
+    if not AMB.on:
+        return None
+    r = AMB.rng
+    a = {
+        "trace": ("trace" in AMB.dims and r.random() < 0.2),
+        "multithread": (r.random() < 0.5) if "multithread" in AMB.dims else None,
+        "tls": ("tls" in AMB.dims and r.random() < 0.25),
+        "dispatcher": ("dispatcher" in AMB.dims and r.random() < 0.25),
+        "high_fd": ("high_fd" in AMB.dims and r.random() < 0.15),
+    }
+    AMB.last = a
+    for k, v in a.items():
+        if v:
+            AMB.counts[k] = AMB.counts.get(k, 0) + 1
+    if a["multithread"] is False:
+        AMB.counts["locks_off"] = AMB.counts.get("locks_off", 0) + 1
+    AMB.counts["connections"] = AMB.counts.get("connections", 0) + 1
+    return a
+
+
+def _apply_ambient(W, ws_kwargs, manage_trace=True):
+    """-> (ws_kwargs, wrap_in_tls)"""
+    global _AMB_NULL
+    a = _draw_ambient()
+    kw = dict(ws_kwargs or {})
+    if a is None:
+        return kw, False
+    if manage_trace and "trace" in AMB.dims:
+        if _AMB_NULL is None:
+            import logging
+            _AMB_NULL = logging.NullHandler()
+        W.enableTrace(bool(a["trace"]), handler=_AMB_NULL)
+    if a["multithread"] is not None:
+        kw.setdefault("enable_multithread", a["multithread"])
+    if a["dispatcher"] and "dispatcher" not in kw:
+        kw["dispatcher"] = W._dispatcher.DispatcherBase(type("App", (), {"keep_running": True})(), 5)
+    net.SimSocket.fd_base = 1100 if a["high_fd"] else 10
+    return kw, bool(a["tls"])
+
+
 def accept_for(key: str) -> str:
     return base64.b64encode(hashlib.sha1((key + GUID).encode()).digest()).decode()
 
@@ -123,8 +215,11 @@ class TunnelPeer:
 def connected_ws(after=b"", cuts=None, timeout=None, on_bytes=None, on_open=None, url="ws://sim.test/", ws_kwargs=None, connect_kwargs=None):
     """WebSocket connected over a SimSocket (socket=...).  -> (ws, conn, peer)"""
     W = ws()
+    ws_kwargs, amb_tls = _apply_ambient(W, ws_kwargs)
     so, conn = net.pair()
     peer = HandshakePeer(conn, after=after, cuts=cuts, on_bytes=on_bytes, on_open=on_open)
+    if amb_tls:
+        so = net.SimTLSSocket(so)
     w = W.WebSocket(**(ws_kwargs or {}))
     if timeout is not None:
         so.settimeout(timeout)
@@ -205,6 +300,8 @@ def run_recv_script(stream, script, segs=None, ending="eof", ws_kwargs=None, tim
     from .ref import rfc6455 as R
 
     W = ws()
+    ws_kwargs, amb_tls = _apply_ambient(W, ws_kwargs)
+    tls = tls or amb_tls
     so, conn = net.pair()
     peer = HandshakePeer(conn)
     if tls:
